@@ -61,9 +61,60 @@ func TestPendingTable(t *testing.T) {
 			v, err := r.fut.WaitRsp()
 			r.collected = true
 			got := simkv.FromWriteRsp(v, err).One()
+			if (r.args[0] == "set" || r.args[0] == "hmset") && !got.IsErr() && !want.IsErr() {
+				got = want // the apply-level value of SET / HMSET is not the client reply; only success vs error is compared
+			}
 			if !resp.Equal(got, want) {
 				fail("request #%d %q was answered %s; the reference model, at its place in the commit order, says %s", r.id, strings.Join(r.args, " "), got, want)
 			}
+		}
+		// applyModel is the reference for ONE call of applyEntries (node/state_machine.go): SET, SETEX,
+		// single-key DEL and HMSET whose key has no write in the open batch yet are executed into one
+		// engine write batch and answered when it is committed - before the next command that cannot
+		// join, or at the end of the call; if one of them fails when applied, the open batch is aborted and
+		// everything batched before it is answered with that error and has no effect.
+		applyModel := func(batch []*wreq) {
+			var open []*wreq
+			dup := map[string]bool{}
+			commit := func() {
+				for _, o := range open {
+					want := m.Apply(0, 1700000000, o.args)
+					if !o.cancelled {
+						collect(o, want)
+					}
+				}
+				open, dup = nil, map[string]bool{}
+			}
+			for _, r := range batch {
+				r.applied = true
+				name, pk := r.args[0], r.args[1]
+				batchable := (name == "set" || name == "setex" || name == "hmset" || (name == "del" && len(r.args) == 2)) && !dup[pk]
+				if !batchable {
+					commit()
+					want := m.Apply(0, 1700000000, r.args)
+					if !r.cancelled {
+						collect(r, want)
+					}
+					continue
+				}
+				dup[pk] = true
+				if pk == "keywithouttable" {
+					labels["batchable_write_refused_at_apply"] = true
+					if len(open) > 0 {
+						labels["open_batch_aborted_with_earlier_writes"] = true
+						nt = true
+					}
+					for _, o := range append(open, r) {
+						if !o.cancelled {
+							collect(o, resp.Err("aborted"))
+						}
+					}
+					open, dup = nil, map[string]bool{}
+					continue
+				}
+				open = append(open, r)
+			}
+			commit()
 		}
 		seq := 0
 		n := rapid.IntRange(3, 40).Draw(t, "nsteps")
@@ -74,12 +125,20 @@ func TestPendingTable(t *testing.T) {
 				seq++
 				key := "t:k" + fmt.Sprint(rapid.IntRange(0, 1).Draw(t, "key"))
 				var args []string
-				switch rapid.IntRange(0, 8).Draw(t, "cmd") {
+				switch rapid.IntRange(0, 12).Draw(t, "cmd") {
 				case 6, 7:
-					// DEL and HSET join the engine write batch of an apply batch (kvbatchOperator), as INCR does
+					// single-key DEL, SET and HMSET join the engine write batch of an apply call (kvbatchOperator)
 					args = []string{"del", key}
 				case 8:
 					args = []string{"hset", "t:h", fmt.Sprintf("f%d", seq%3), fmt.Sprintf("h%d", seq)}
+				case 9, 10:
+					args = []string{"set", key, fmt.Sprintf("w%d", seq)}
+				case 11:
+					args = []string{"hmset", "t:hm" + fmt.Sprint(seq%2), fmt.Sprintf("f%d", seq%3), fmt.Sprintf("m%d", seq)}
+				case 12:
+					// passes the leader's validation, is refused when applied (no table in the key):
+					// the open engine write batch is aborted with everything batched before it
+					args = []string{"set", "keywithouttable", fmt.Sprintf("x%d", seq)}
 				case 0, 1:
 					args = []string{"getset", key, fmt.Sprintf("v%d", seq)}
 				case 2:
@@ -167,13 +226,7 @@ func TestPendingTable(t *testing.T) {
 				if part.Poisoned {
 					fail("the apply path panicked while applying %s", strings.Join(ids, " "))
 				}
-				for _, r := range batch {
-					r.applied = true
-					want := m.Apply(0, 1700000000, r.args)
-					if !r.cancelled {
-						collect(r, want)
-					}
-				}
+				applyModel(batch)
 			}
 		}
 		// drain
@@ -184,18 +237,14 @@ func TestPendingTable(t *testing.T) {
 			if part.Poisoned {
 				fail("the apply path panicked while applying #%d", r.id)
 			}
-			r.applied = true
-			want := m.Apply(0, 1700000000, r.args)
-			if !r.cancelled {
-				collect(r, want)
-			}
+			applyModel([]*wreq{r})
 		}
 		for _, r := range reqs {
 			if part.KV.VerifWaitRegistered(r.id) {
 				fail("request #%d (%s; cancelled=%v committed=%v) is finished but its id is still in the pending request table", r.id, strings.Join(r.args, " "), r.cancelled, r.applied)
 			}
 		}
-		for _, rc := range [][]string{{"get", "t:k0"}, {"get", "t:k1"}, {"get", "t:n"}, {"lrange", "t:l", "0", "-1"}, {"hgetall", "t:h"}} {
+		for _, rc := range [][]string{{"get", "t:k0"}, {"get", "t:k1"}, {"get", "t:n"}, {"lrange", "t:l", "0", "-1"}, {"hgetall", "t:h"}, {"hgetall", "t:hm0"}, {"hgetall", "t:hm1"}} {
 			got := sim.Do(append([]string{rc[0], "default:" + rc[1]}, rc[2:]...)...).One()
 			want := m.Apply(0, 1700000000, rc)
 			if !resp.Equal(got, want) {
